@@ -146,7 +146,7 @@ func c04ScanInput(r *mon.RNG) string {
 
 func c04Child(c *mon.Child) {
 	// Part A: stateful and simple lexers on generated maps.
-	nMaps := c.N(150, 500)
+	nMaps := c.N(150, 2000)
 	nInputs := c.N(80, 250)
 	for mi := 0; mi < nMaps; mi++ {
 		r := c.RNG("map", mi)
@@ -221,7 +221,7 @@ func c04Child(c *mon.Child) {
 		}
 	}
 	// Part B: the text/scanner based lexers, through every constructor.
-	nScan := c.N(20000, 100000)
+	nScan := c.N(20000, 400000)
 	r := c.RNG("scan")
 	custom := lexer.NewTextScannerLexer(func(s *scanner.Scanner) {
 		s.Mode = scanner.ScanIdents | scanner.ScanInts | scanner.ScanFloats | scanner.ScanStrings | scanner.ScanRawStrings | scanner.ScanChars | scanner.ScanComments
